@@ -27,7 +27,7 @@ VALUES = (b"", b"x", b"\xff\x00\xfe", b"v" * 100_000, 0, 7, 2 ** 40, b"row")
 
 
 def budget(tier):
-    return {"quick": {"runs": 1500, "wall": 170}, "thorough": {"runs": 60000, "wall": 1500}}[tier]
+    return {"quick": {"runs": 1500, "wall": 170}, "thorough": {"runs": 18000, "wall": 900}}[tier]
 
 
 def _open(backend, path, shared):
